@@ -854,8 +854,10 @@ package smtp
 //@   requires s != nil && l != nil && s.ErrorLog != nil && s.done != nil
 //@   modifies s.listeners, *elems net.Listener, *chan
 //@   ensures @C20 temporary-accept-errors-never-end-serving: err != nil ==> !(istype(err, "net.Error") && isTemp(err))
+//@   before net.Listener.Accept: @C20 a-listener-is-registered-before-it-is-served-so-that-close-reaches-it: $0 == l && len(s.listeners) > 0 && s.listeners[len(s.listeners) - 1] == l
 //@   loop 1:
 //@     invariant @C20 back-off-stays-bounded: 0 <= tempDelay && tempDelay <= 1000000000
+//@     invariant @C20 the-listener-stays-registered: len(s.listeners) > 0 && s.listeners[len(s.listeners) - 1] == l
 
 //@ contract (*Server).Close(s) (err)
 //@   prop C20
